@@ -1080,8 +1080,27 @@ def read_tables():
                 and isinstance(n.value, ast.Name):
             reg[ast.literal_eval(n.targets[0].slice).upper()] = n.value.id
     fp = members.get("for_property")
-    fp_ok = fp is not None and ast.unparse(source.strip_docstring(fp.body)[0]) == "return self[self.types_map.get(name, 'text')]"
+    fp_ok = fp is not None and [a.arg for a in fp.args.args] == ["self", "name"] and not fp.args.kwonlyargs and fp.args.vararg is None \
+        and fp.args.kwarg is None and returned_expression(fp) == "self[self.types_map.get(name, 'text')]"
     return types_map, reg, fp_ok
+
+
+def returned_expression(fn):
+    """the expression a straight-line function returns, single-assignment locals substituted (None when it is not straight-line)"""
+    body = source.strip_docstring(fn.body)
+    env = {}
+
+    class Sub(ast.NodeTransformer):
+        def visit_Name(self, n):
+            return env.get(n.id, n) if isinstance(n.ctx, ast.Load) else n
+    for st in body[:-1]:
+        if not (isinstance(st, ast.Assign) and len(st.targets) == 1 and isinstance(st.targets[0], ast.Name) and st.targets[0].id not in env
+                and st.targets[0].id not in {a.arg for a in fn.args.args}):
+            return None
+        env[st.targets[0].id] = Sub().visit(ast.parse(ast.unparse(st.value), mode="eval").body)
+    if not body or not isinstance(body[-1], ast.Return) or body[-1].value is None:
+        return None
+    return ast.unparse(Sub().visit(ast.parse(ast.unparse(body[-1].value), mode="eval").body))
 
 
 def table_obligations(rep, tier):
